@@ -363,6 +363,18 @@ pub fn run_b_deep(s: &mut Src, ctx: &mut Ctx) -> Verdict {
         )
     });
     let facts = Facts::new();
+    // a store that is not new: many unrelated keys were set, rolled back, committed and removed before (a pure function of
+    // the case length, no draw)
+    if ops.len() % 3 == 0 {
+        for w in 0..70 {
+            facts.set(&format!("w{}", w), Value::Integer(w));
+        }
+        facts.begin_undo_frame();
+        for w in 0..70 {
+            facts.remove(&format!("w{}", w));
+        }
+        facts.commit_undo_frame();
+    }
     facts.set("k1", Value::Integer(0));
     facts.set("k2", nested_obj().to_engine());
     let mut model: Snap = snap_of(&facts);
